@@ -868,6 +868,12 @@ func (p *parser) parseSelector() (Sel, error) {
 			return result, nil
 		}
 
+		// a pseudo-element must end the selector: "a::before b" would otherwise be
+		// accepted, the pseudo-element dropped, and the rule applied to the "b" elements
+		if pe := result.PseudoElement(); pe != "" {
+			return nil, fmt.Errorf("pseudo-element %s must be at the end of selector", pe)
+		}
+
 		c, err = p.parseSimpleSelectorSequence()
 		if err != nil {
 			return nil, err
